@@ -23,7 +23,7 @@ RULE = ("NP2.4 recordings whose first rows contain all 65536 int16 values (or al
         "(gain, assignment mode, #shanks, window, ns, options)")
 ASSUMPTIONS = ["byte comparison uses harness code (numpy.fromfile / mtscomp), never the repository's reader",
                "metadata equality is judged on the parsed dictionaries (tilde prefixes are not part of a key)"]
-REQUIRED = {"shank_files_compared": 8, "reconstructions": 3, "meta_fields_compared": 100, "values_all_int16": 1, "second_passes": 4, "shank_files_opened": 8, "limited_precision_durations": 5, "compressed_originals": 3, "resplits": 4}
+REQUIRED = {"shank_files_compared": 8, "reconstructions": 3, "meta_fields_compared": 100, "values_all_int16": 1, "second_passes": 4, "shank_files_opened": 8, "limited_precision_durations": 5, "compressed_originals": 3, "resplits": 4, "stale_metadata_in_output_folder": 5}
 CASE_TIMEOUT = 120.0
 MAX_PROCS = 12
 
@@ -158,6 +158,19 @@ def run_case(case):
         keep.mkdir()
         shutil.move(str(b.parent), str(keep / "probe00"))
         rcomp = bool(rng.integers(0, 2))
+        if i % 3 == 1 or rng.random() < 0.2:
+            # the output folder is not empty: it still holds the metadata of an EARLIER reassembly of another recording of this probe (same layout;
+            # other length, creation time, first sample) - the metadata written now describe the recording reassembled now
+            import re as _re
+            dns = int(rng.integers(1, 5000))
+            stale = orig_meta_text
+            for k_, v_ in (("fileSizeBytes", str((ns + dns) * 385 * 2)), ("fileTimeSecs", repr((ns + dns) / rec.fs)), ("fileCreateTime", "2019-01-01T01:01:01"),
+                           ("firstSample", str(int(rng.integers(1, 10 ** 6))))):
+                stale = _re.sub(rf"(?m)^{k_}=.*$", f"{k_}={v_}", stale)
+            (d / "probe00").mkdir(exist_ok=True)
+            (d / "probe00" / (np2.NAME + ".meta")).write_text(stale)
+            label += f" (output folder holds the metadata of an earlier reassembly, {ns + dns} samples)"
+            res.count("stale_metadata_in_output_folder")
         rc = neuropixel.NP2Reconstructor(d, "probe00", compress=rcomp)
         st = rc.process()
         res.check(st == 1, "reconstruct:status", f"{label}: reconstructor returned {st}")
